@@ -32,9 +32,17 @@ Box3Ok(e) ==
     /\ LET ab == BoxMeet(cs.a, cs.b) IN
        e.isect = IF ab = <<>> THEN <<>> ELSE BoxMeet(ab[1], cs.c)
 
+(* Extend by a box that holds no point (Max < Min on some axis, not necessarily the canonical empty box) is the identity *)
+BoxExtOk(e) ==
+    /\ e.ev = "boxext" /\ e.out = "ok"
+    /\ e.emptyb = TRUE
+    /\ e.ext = Join(cs.a, cs.b) /\ e.ext = NumBox(cs.a)
+    /\ e.bafter = cs.b
+
 Ok(e) == CASE cs.kind = "geom" -> GeomOk(e)
            [] cs.kind = "box2" -> Box2Ok(e)
            [] cs.kind = "box3" -> Box3Ok(e)
+           [] cs.kind = "boxext" -> BoxExtOk(e)
            [] OTHER -> FALSE
 
 Apply(e) == UNCHANGED cs
